@@ -573,6 +573,99 @@ def check_coords(c):
     return None
 
 
+# ------------------------------------------------------------------ oracle: the delegating wrappers
+def gen_wrappers(rng: random.Random, tier: str):
+    CAX = ["cube", "cube_corners", "world", "grid"]
+    for _ in range(_n(tier, 6, 120, 20)):
+        d = rng.choice([2, 3])
+        g = gen.grid_spec(rng, d, min_size=2)
+        g2 = gen.grid_spec(rng, d, min_size=2)
+        for a, b in itertools.product(CAX, CAX):
+            yield {"grid": g, "grid2": g2, "axes": a, "to_axes": b, "x": gen.points(rng, d, 1, -1.2, 1.2)[0],
+                   "other": rng.random() < 0.5}
+
+
+def check_wrappers(c):
+    """module-level functions and convenience methods that only delegate (grid_points_transform, grid_vectors_transform,
+    grid_transform_points / _vectors, Grid.inverse_transform, Cube.transform_points / _vectors, cube_*_transform,
+    cube_transform_*, Cube.inverse_transform, Cube.grid) give the numbers of the method they delegate to"""
+    from deepali.core import cube as CU
+    from deepali.core import grid as GR
+    from deepali.core.linalg import homogeneous_transform
+
+    g, g2 = gen.make_grid(c["grid"]), gen.make_grid(c["grid2"])
+    to = g2 if c["other"] else None
+    a, b = Axes(c["axes"]), Axes(c["to_axes"])
+    x = torch.tensor(c["x"], dtype=torch.float32)
+    tol = lambda *ts: 1e-5 * max([1.0] + [float(t.abs().max()) for t in ts])   # noqa: E731
+
+    def bad(name, got, want):
+        if got.shape != want.shape or float((got - want).abs().max()) > tol(got, want):
+            return (f"C01:wrapper:{name}", f"{name}({c['axes']} -> {c['to_axes']}, other grid: {c['other']}) = {got.flatten()[:4].tolist()}, "
+                    f"the method it delegates to gives {want.flatten()[:4].tolist()}")
+        return None
+
+    tg = to if to is not None else g
+    for vec in (False, True):
+        M = g.transform(a, b, to_grid=to, vectors=vec)
+        W = (GR.grid_vectors_transform if vec else GR.grid_points_transform)(g, a, tg, b)
+        r = bad("grid_vectors_transform" if vec else "grid_points_transform", W, M)
+        if r:
+            return r
+        y = (g.transform_vectors if vec else g.transform_points)(x, a, b, to_grid=to)
+        y2 = (GR.grid_transform_vectors if vec else GR.grid_transform_points)(x, g, a, tg, b)
+        r = bad("grid_transform_vectors" if vec else "grid_transform_points", y2, y)
+        if r:
+            return r
+        # decimals=None: no rounding on either side
+        y3 = g.apply_transform(x, a, b, to_grid=to, vectors=vec, decimals=None)
+        r = bad("apply_transform-vs-matrix", y3, homogeneous_transform(M, x, vectors=vec))
+        if r:
+            return r
+    cube_axes = Axes.from_grid(g)
+    inv = g.inverse_transform()
+    # float32 matrices: a world offset |w| carries eps32·|w| of absolute error, i.e. eps32·|w| / (half extent) in cube units
+    cond = 16 * 1.2e-7 * float(g.center().abs().max()) / (0.5 * float(g.cube_extent().min()))
+    rt = homogeneous_transform(inv.double(), homogeneous_transform(g.transform().double(), x.double()))
+    r = bad("Grid.inverse_transform", inv, g.transform(Axes.WORLD, cube_axes))
+    if r is None and float((rt - x.double()).abs().max()) > 1e-5 + cond:
+        r = ("C01:wrapper:Grid.inverse_transform:roundtrip", f"inverse_transform() o transform() moves {x.tolist()} to {rt.tolist()}")
+    if r:
+        return r
+    # cubes (axes cube / world only; a Cube has no sample lattice)
+    if c["axes"] in ("cube", "world") and c["to_axes"] in ("cube", "world"):
+        cu, cu2 = g.cube(), g2.cube()
+        tc = cu2 if c["other"] else None
+        for vec in (False, True):
+            M = cu.transform(a, b, to_cube=tc, vectors=vec)
+            W = (CU.cube_vectors_transform if vec else CU.cube_points_transform)(cu, a, tc if tc is not None else cu, b)
+            r = bad("cube_vectors_transform" if vec else "cube_points_transform", W, M)
+            if r:
+                return r
+            y = (cu.transform_vectors if vec else cu.transform_points)(x, a, b, to_cube=tc)
+            y2 = (CU.cube_transform_vectors if vec else CU.cube_transform_points)(x, cu, a, tc if tc is not None else cu, b)
+            r = bad("cube_transform_vectors" if vec else "cube_transform_points", y2, y) or \
+                bad("Cube.transform_vectors" if vec else "Cube.transform_points", y, homogeneous_transform(M, x, vectors=vec))
+            if r:
+                return r
+            # the grid's own cube describes the grid's normalised axes
+            yg = (g.transform_vectors if vec else g.transform_points)(x, cube_axes if a is Axes.CUBE else a,
+                                                                      cube_axes if b is Axes.CUBE else b,
+                                                                      to_grid=None, decimals=None) if not vec else \
+                g.transform_vectors(x, cube_axes if a is Axes.CUBE else a, cube_axes if b is Axes.CUBE else b)
+            if tc is None:
+                r = bad("Cube-vs-Grid:vectors" if vec else "Cube-vs-Grid:points", y, yg)
+                if r:
+                    return r
+        rt = homogeneous_transform(cu.inverse_transform().double(), homogeneous_transform(cu.transform().double(), x.double()))
+        if float((rt - x.double()).abs().max()) > 1e-5 + cond:
+            return ("C01:wrapper:Cube.inverse_transform:roundtrip", f"inverse_transform() o transform() moves {x.tolist()} to {rt.tolist()}")
+        back = cu.grid(size=g.size(), align_corners=g.align_corners())
+        if not (back == g) or back.align_corners() != g.align_corners():
+            return ("C01:wrapper:Cube.grid", f"grid.cube().grid(size, align_corners) is {back!r}, not {g!r}")
+    return None
+
+
 ORACLES = [
     Oracle("laws", gen_laws, check_laws, nontrivial=lambda c: gen.grid_nontrivial(c["grids"][0]),
            doc="round trip / composition / vectors = linear part for all axes triples on the API"),
@@ -580,12 +673,16 @@ ORACLES = [
            doc="documented anchors of the four coordinate systems"),
     Oracle("coords", gen_coords, check_coords, nontrivial=lambda c: True,
            doc="coords(): shape, range, = point map of indices, grid_sample identity; points()"),
+    Oracle("wrappers", gen_wrappers, check_wrappers, nontrivial=lambda c: gen.grid_nontrivial(c["grid"]),
+           doc="delegating functions and methods (grid_*_transform, grid_transform_*, Grid.inverse_transform, Cube.transform_*, "
+               "cube_*_transform, cube_transform_*, Cube.inverse_transform, Cube.grid) = the method they delegate to, and a "
+               "grid's cube = the grid's normalised axes"),
 ]
 
 
 def search_cases(disagreements: List[dict]):
     """Turn disagreeing correspondence cases into oracle cases (same grids) so that the search starts there."""
-    extra = {"laws": [], "anchor": [], "coords": []}
+    extra = {"laws": [], "anchor": [], "coords": [], "wrappers": []}
     for dsg in disagreements[:50]:
         c = dsg["case"]
         if "grid" in c and isinstance(c["grid"], dict):
